@@ -2,6 +2,7 @@
 package c11
 
 import (
+	"syscall"
 	"bytes"
 	"encoding/json"
 	"errors"
@@ -26,7 +27,7 @@ import (
 
 func TestMain(m *testing.M) {
 	harness.Property("C11",
-		"case = mailbox content (0..4 messages per folder, some with X-Unread / a stale X-FilePath line) + one operation {ProcessInbound, AddOut, SetSent, SetUnread(true|false)} + its message (60 B..8 KiB; short lines, long lines, blank and header-like lines, binary attachments, empty last attachment). The operation runs once in the mboxop helper under strace; the recorded calls on the mailbox tree are replayed onto the pre-state and every crash state is materialised: before/after every tree-changing call and after every prefix length of every write (all lengths for writes <= 1 KiB; otherwise the first and last 64, three positions around every CRLF and a seeded sample of 64). One evaluation = one crash state judged with a fresh DirHandler. Non-trivial = crash state strictly between the first and the last tree-changing call; distinct by hash(case, call index, prefix length).",
+		"case = mailbox content (0..4 messages per folder, some with X-Unread / a stale X-FilePath line) + one operation {ProcessInbound, AddOut, SetSent, SetUnread(true|false)} + its message (60 B..8 KiB; short lines, long lines, blank and header-like lines, binary attachments, empty last attachment). The operation runs once in the mboxop helper under strace; the recorded calls on the mailbox tree are replayed onto the pre-state and every crash state is materialised: before/after every tree-changing call and after every prefix length of every write (all lengths for writes <= 1 KiB; otherwise the first and last 64, three positions around every CRLF and a seeded sample of 64). In a quarter of the SetSent cases the sent folder is a symbolic link to a directory on another file system (the kernel refuses the rename with EXDEV; a library that gives up loudly leaves no crash state, one that falls back to copying is judged at every step of the copy). One evaluation = one crash state judged with a fresh DirHandler. Non-trivial = crash state strictly between the first and the last tree-changing call; distinct by hash(case, call index, prefix length).",
 		"crash = death of the process: the kernel applies system calls in order and a write may be cut at any byte; power loss (reordering of unsynced data) is outside the statement",
 		"the replayed final tree must equal the tree the helper really left, and the pre-state itself must pass the oracle; otherwise the run is reported as a harness problem (inconclusive), never as a violation",
 		"'intact' is judged through the API: listing of the folder, message re-serialised, compared modulo X-FilePath (which OpenMessage sets) — and modulo X-Unread for the message whose flag is being rewritten",
@@ -64,6 +65,9 @@ type Case struct {
 	Unread bool     `json:"unread,omitempty"`
 	// set_sent: the peer rejected the proposal (it already has the message); SetSent(mid, true)
 	Rejected bool   `json:"rejected,omitempty"`
+	// set_sent: the sent folder is a symbolic link to a directory on another file system (a second disk, a memory
+	// card), so that a rename from the outbox is refused by the kernel (EXDEV)
+	SentElsewhere bool `json:"sent_elsewhere,omitempty"`
 	Seed   uint64   `json:"seed"` // for the sampled prefix lengths of large writes
 	Shape  string   `json:"shape,omitempty"`
 }
@@ -478,6 +482,8 @@ type stats struct {
 	writes               int
 	hashes               []uint64
 	failedState          string
+	elsewhere, refused   bool   // sent folder on another file system; the library refused the move loudly
+	skipped              string // environment could not provide what the case asked for
 }
 
 // prefixLens chooses the cut positions 1..n-1 of a write of n bytes.
@@ -555,6 +561,39 @@ func run(c Case) (sig, msg string, st stats, herr error) {
 			}
 		}
 	}
+	var alias map[string]string
+	if c.SentElsewhere && !c.Fresh {
+		// the scratch mailbox lives on /dev/shm (tmpfs); the system's temporary directory is on another file system
+		other, err := os.MkdirTemp("", "verif-c11-sent-")
+		if err != nil {
+			return "", "", st, problem("%v", err)
+		}
+		defer os.RemoveAll(other)
+		var a, b syscall.Stat_t
+		if syscall.Stat(root, &a) != nil || syscall.Stat(other, &b) != nil || a.Dev == b.Dev {
+			st.skipped = "no second file system for the sent folder"
+		} else {
+			sent := filepath.Join(root, "sent")
+			ents, _ := os.ReadDir(sent)
+			for _, e := range ents {
+				data, err := os.ReadFile(filepath.Join(sent, e.Name()))
+				if err == nil {
+					err = os.WriteFile(filepath.Join(other, e.Name()), data, 0o644)
+				}
+				if err != nil {
+					return "", "", st, problem("moving the sent folder: %v", err)
+				}
+			}
+			if err := os.RemoveAll(sent); err != nil {
+				return "", "", st, problem("%v", err)
+			}
+			if err := os.Symlink(other, sent); err != nil {
+				return "", "", st, problem("%v", err)
+			}
+			alias = map[string]string{other: sent}
+			st.elsewhere = true
+		}
+	}
 	exp := newExpectation(c)
 	if c.Msg != nil {
 		// the continuation phase hands these to the library again: they must be parseable messages
@@ -619,16 +658,20 @@ func run(c Case) (sig, msg string, st stats, herr error) {
 	if err != nil {
 		return "", "", st, problem("helper under strace: %v", err)
 	}
-	if !res.Returned || res.ParseErr != "" {
+	if alias != nil && !res.Returned && res.ParseErr == "" && res.Exit > 0 && res.Panic == "" {
+		// the folders are on different file systems and the library refused loudly (log.Fatalf ends the process):
+		// no answer, but whatever it did to the tree before giving up is judged like any other run
+		st.refused = true
+	} else if !res.Returned || res.ParseErr != "" {
 		// no answer from the operation (strace could not start or attach, the helper was killed, the
 		// generated message does not parse): nothing can be said about the library
 		return "", "", st, problem("the traced helper did not complete the operation: exit %d, result %+v\n%s", res.Exit, res, res.Output)
 	}
-	if res.Err != "" || res.PrepareErr != "" {
+	if !st.refused && (res.Err != "" || res.PrepareErr != "") {
 		// the uninterrupted operation itself returned an error: that is C10's business, but it must be visible
 		return "operation-failed:" + c.Op, fmt.Sprintf("the uninterrupted operation did not succeed: %+v", res), st, nil
 	}
-	events, _, err := fstrace.Parse(tracePath, root, base)
+	events, _, err := fstrace.ParseAlias(tracePath, root, base, alias)
 	if err != nil {
 		return "", "", st, problem("parse trace: %v", err)
 	}
@@ -867,6 +910,7 @@ func genCase(t *rapid.T) Case {
 	case "set_sent":
 		c.MID = pick("out").Msg.MID
 		c.Rejected = rapid.Bool().Draw(t, "rejected")
+		c.SentElsewhere = rapid.IntRange(0, 3).Draw(t, "sent_elsewhere") == 0
 	case "set_unread":
 		c.Folder = rapid.SampledFrom([]string{"in", "in", "in", "out", "sent", "archive"}).Draw(t, "folder")
 		has := false
@@ -902,6 +946,15 @@ func account(c Case, st stats) {
 	}
 	if c.Fresh {
 		harness.Label("case:fresh-mailbox")
+	}
+	if st.elsewhere {
+		harness.Label("case:sent-folder-on-another-file-system")
+		if st.refused {
+			harness.Label("case:sent-folder-on-another-file-system:move-refused-loudly")
+		}
+	}
+	if st.skipped != "" {
+		harness.Label("skipped:" + st.skipped)
 	}
 	if c.Msg != nil && len(c.Msg.Files) > 0 {
 		harness.Label("case:attachments")
